@@ -65,6 +65,11 @@ def triavg_check(ctx, mode, N, model_tris, model_pts):
         return "a point is not a normalised lattice point of the octahedron face"
     if len(set(lat)) != len(lat):
         return "duplicate points survive the merge"
+    if mode == "sphere":
+        # the point set the theorem sphere_traceless is about: every integer point of |x| + |y| + |z| = N, once
+        want_pts = set((x, y, z) for x in range(-N, N + 1) for y in range(-N, N + 1) for z in range(-N, N + 1) if abs(x) + abs(y) + abs(z) == N)
+        if set(lat) != want_pts:
+            return "the sphere orientation set is not the set of integer points of |x|+|y|+|z| = %d (%d points, %d expected)" % (N, len(set(lat)), len(want_pts))
     for i, l in enumerate(lat):
         r = math.sqrt(sum(x * x for x in l)) / N
         if abs(w[i] - r ** -3) > 1e-9 * r ** -3:
@@ -113,7 +118,7 @@ def run(ctx):
                     "oracles (unit norm, region, spherical-excess area sum, |r|^-3), not modelled",
                     "SHREWD's optimiser (scipy.optimize) is an oracle: only sum(weights) = 1, unit vectors and the region are claimed"]
     ctx.build_props()
-    ctx.build_models(["model/TriAvg.vo", "model/TentQ.vo"])
+    ctx.build_models(["model/TriAvg.vo", "model/TentQ.vo", "proofs/OctaProofs.vo"])
     for k in ctx.known:            # corpus: witnesses of repaired defects
         w_ = k.get("witness") or {}
         if w_.get("kind") == "tent":
@@ -148,6 +153,16 @@ def run(ctx):
     ctx.oblige("TriAvg.get_orient_points == Coq triangulation under the mode's sign vectors, N = 1..40 x 3 modes [120 cases, exhaustive]", "correspondence",
                nbad == 0, first)
     ctx.exhaustive = True
+    # the Coq definition of that point set (proofs/OctaProofs.v) against the same enumeration
+    octv = fw.coq_eval("c13o", "From Coq Require Import ZArith List.\nImport ListNotations.\nRequire Import Sop.proofs.OctaProofs.\nLocal Open Scope Z_scope.\n",
+                       ["flat_map (fun r => match r with (x, y, z) => [x; y; z] end) (oct %d)" % N for N in (0, 1, 2, 3, 5, 8)])
+    obad = 0
+    for N, v in zip((0, 1, 2, 3, 5, 8), octv):
+        got_ = sorted(tuple(v[i:i + 3]) for i in range(0, len(v), 3))
+        want_ = sorted((x, y, z) for x in range(-N, N + 1) for y in range(-N, N + 1) for z in range(-N, N + 1) if abs(x) + abs(y) + abs(z) == N)
+        obad += got_ != want_
+    ctx.oblige("Coq point set oct N == integer points of |x|+|y|+|z| = N (N in 0,1,2,3,5,8), the set TriAvg('sphere') is checked against for N = 1..40", "correspondence", obad == 0,
+               "%d sizes differ" % obad)
     # ---- traceless averages
     Ts = []
     for _ in range(6):
